@@ -20,7 +20,8 @@ import (
 const maxFreeLeaves = 10
 
 type bform struct {
-	op   string // and | or | not | leaf
+	expr ast.Expr // expression of this node (compound nodes too), nil when unknown
+	op   string   // and | or | not | leaf
 	kids []*bform
 	leaf ast.Expr // AST expression of the leaf (in g.F or an enclosing function)
 	key  string   // canonical key of the leaf (normalised comparison), sense folded into neg
@@ -40,13 +41,13 @@ func (g *Graph) formOfV(v *V, fallback ast.Expr, depth int) *bform {
 	}
 	switch {
 	case v.Kind == "unop" && v.Name == "!" && len(v.Args) == 1:
-		return &bform{op: "not", kids: []*bform{g.formOfV(v.Args[0], exprOf(v.Args[0]), depth+1)}}
+		return &bform{op: "not", expr: exprOf(v), kids: []*bform{g.formOfV(v.Args[0], exprOf(v.Args[0]), depth+1)}}
 	case v.Kind == "op" && (v.Name == "&&" || v.Name == "||") && len(v.Args) == 2:
 		op := "and"
 		if v.Name == "||" {
 			op = "or"
 		}
-		return &bform{op: op, kids: []*bform{g.formOfV(v.Args[0], exprOf(v.Args[0]), depth+1), g.formOfV(v.Args[1], exprOf(v.Args[1]), depth+1)}}
+		return &bform{op: op, expr: exprOf(v), kids: []*bform{g.formOfV(v.Args[0], exprOf(v.Args[0]), depth+1), g.formOfV(v.Args[1], exprOf(v.Args[1]), depth+1)}}
 	}
 	le := exprOf(v)
 	if le == nil {
